@@ -110,9 +110,9 @@ pub fn child(tier: Tier) -> ! {
     let rows = Acc::default();
     let traces = Acc::default();
     let mut cfg = CorpusCfg::new(tier.pick(2, 2));
-    cfg.gen.wide_filters = true;
+    cfg.gen.wide_filters = tier == Tier::Thorough;
     cfg.gen.invalid_devs = true;
-    cfg.gen.naming_devs = true;
+    cfg.gen.naming_devs = tier == Tier::Thorough;
     cfg.max_arg_maps = 1;
     cfg.ir_var_types_fallback = true;
     let mut uni2 = Universe::sverif();
@@ -142,7 +142,11 @@ pub fn child(tier: Tier) -> ! {
     // (1b) the tag-structures space (two edges + up to two tag deviations: several distinct outer
     //      tags imported into one fold, sibling folds importing the same tag, count tags, ...)
     {
-        let cfg_t = corpus::structures_cfg(&uni, 2, vec!["Pt", "Fct"], 2);
+        let mut cfg_t = corpus::structures_cfg(&uni, 2, vec!["Pt", "Fct"], 2);
+        if tier == Tier::Quick {
+            // imported-tag bookkeeping needs a fold
+            cfg_t.seeds.retain(|q| crate::qast::features(q).fold > 0);
+        }
         let layers = crate::qgen::enumerate(&uni.world.schema, &cfg_t.seeds, 2, &cfg_t.gen);
         layers.par_iter().flatten().for_each(|q| {
             let text = q.text();
@@ -251,7 +255,7 @@ pub fn child(tier: Tier) -> ! {
 fn run_child(seed: Option<u64>, tier: Tier) -> Result<serde_json::Value, String> {
     let exe = std::env::current_exe().map_err(|e| e.to_string())?;
     let mut cmd = std::process::Command::new(exe);
-    cmd.args(["C14CHILD", tier.name()]).env("VERIF_THREADS", "2").env("RAYON_NUM_THREADS", "2");
+    cmd.args(["C14CHILD", tier.name()]).env("VERIF_THREADS", "1").env("RAYON_NUM_THREADS", "1");
     if let Some(s) = seed {
         cmd.env("LD_PRELOAD", SHIM).env("VERIF_HASH_SEED", s.to_string());
     } else {
@@ -286,7 +290,8 @@ pub fn run(ctx: &Ctx) -> ! {
     };
     let wanted = if quick { 6 } else { 24 };
     loop {
-        let batch: Vec<u64> = (next..(next + 16).min(max_seeds)).collect();
+        let width = crate::common::threads() as u64;
+        let batch: Vec<u64> = (next..(next + width).min(max_seeds)).collect();
         if batch.is_empty() {
             break;
         }
@@ -303,9 +308,8 @@ pub fn run(ctx: &Ctx) -> ! {
         }
     }
     // the shim must really control the seed: same seed twice => same orders; and two free-running processes
-    let again = run_child(Some(0), ctx.tier).unwrap_or_else(|e| crate::common::machinery(&e));
-    let free1 = run_child(None, ctx.tier).unwrap_or_else(|e| crate::common::machinery(&e));
-    let free2 = run_child(None, ctx.tier).unwrap_or_else(|e| crate::common::machinery(&e));
+    let extra: Vec<serde_json::Value> = [Some(0u64), None, None].par_iter().map(|s| run_child(*s, ctx.tier).unwrap_or_else(|e| crate::common::machinery(&e))).collect();
+    let (again, free1, free2) = (extra[0].clone(), extra[1].clone(), extra[2].clone());
     let reports = reports.into_inner().unwrap();
     if again["orders"] != reports[&0]["orders"] {
         crate::common::machinery("C14: the getrandom shim does not make the hash seed reproducible (same seed, different iteration orders)");
